@@ -16,7 +16,8 @@ RULE = ('each documented scalar function x its argument grid: string pool {ASCII
         'CONCAT/CONCAT_WS/COALESCE with 1..4 arguments incl. empty ones, BASE64 round trip, numeric functions on '
         '{0,1,-1,2,10,255,2^63-1,0.5,non-numeric}, date functions on month/year ends and 29 Feb and on the modified column; '
         'every composition F(G(name)) and F(G(H(name))) of 11 string functions (121 pairs, 1331 triples); two calls of one function in one query; wrong-kind arguments must '
-        'give an empty value or status 2, never a crash; one function call per query')
+        'give an empty value or status 2, never a crash; one function call per query'
+        '; dates followed by digits that are no time of day; SUBSTR lengths of 2^64 and more')
 ASSUMPTIONS = ['models are written from docs/usage.md; floats compared at 1e-12 relative; NaN equals NaN',
                'INITCAP is compared modulo whitespace normalisation (the doc does not say whether runs are kept)',
                'BIN/HEX/OCT of a negative integer = 64-bit two\'s complement (as in MySQL)',
